@@ -443,6 +443,7 @@ static void setup_argument_context(PyObject **pDict, bool is_retval, struct scri
 		case ARG_FMT_SINT:
 		case ARG_FMT_UINT:
 		case ARG_FMT_HEX:
+		case ARG_FMT_OCT:
 		case ARG_FMT_PTR:
 		case ARG_FMT_ENUM:
 			memcpy(val.v, data, spec->size);
